@@ -439,6 +439,9 @@ class LSFScriptAdapter(SchedulerScriptAdapter):
             return State.TIMEDOUT
         elif lsf_state == "WAIT" or lsf_state == "PROV":
             return State.WAITING
+        elif lsf_state in ("PSUSP", "USUSP", "SSUSP"):
+            # Suspended jobs are still alive and can be resumed.
+            return State.WAITING
         elif lsf_state == "UNKWN":
             return State.UNKNOWN
         else:
